@@ -8,8 +8,8 @@ resuming mechanism it cannot express — the admission webhooks, the only other 
   (Handlers of kind "validate" / "mutate" are registered by the shared `build_registry` as they are.)
 * timeline op `[t, "admit", name, operation]` — an AdmissionReview request (operation = "UPDATE" | "DELETE" | "CREATE")
   for the object's current state is served through that function as soon as the incarnation's webhook server is up
-  (immediately, if it is already). The mark `{"what": "admit", "uid", "operation", "t", "inc", "allowed"}` is logged
-  when it has been served.
+  (immediately, if it is already). The mark `{"what": "admit", "uid", "operation", "t", "inc", "allowed", "mem_before",
+  "mem_after"}` (the object's `ResourceMemory` flags right before / after the request) is logged when it has been served.
 
 Selected per scenario with `"runner": "harness.props.sim_c14:run_scenario"` (see harness/sim/worker.py).
 """
@@ -57,20 +57,25 @@ class Sim14(scenario.Sim):
         if op[0] != "admit":
             return super().apply_op(op)
         name, operation = op[1], (op[2] if len(op) > 2 else "UPDATE")
-        self.side_tasks.append(asyncio.get_running_loop().create_task(self._admit(name, operation)))
+        # the object as it is NOW (the request is about this state, whenever the server gets to serve it); the review of
+        # a creation comes before the object exists: no uid, no resourceVersion yet
+        body = self.cluster.get(self.kex, "ns", name)
+        if body is None and operation == "CREATE":
+            body = {"apiVersion": f"{self.kex.group}/{self.kex.version}", "kind": "KopfExample",
+                    "metadata": {"name": name, "namespace": "ns", "labels": {"l": "1"}}, "spec": {"x": 1}}
+        self.side_tasks.append(asyncio.get_running_loop().create_task(
+            self._admit(name, operation, None if body is None else copy.deepcopy(body))))
         self.mark("op", op=op)
 
-    async def _admit(self, name: str, operation: str) -> None:
+    async def _admit(self, name: str, operation: str, body: Any) -> None:
         if not self.webhook_servers:
             self.mark("admit-skipped", why="no webhook server in this scenario")
             return
-        srv = self.webhook_servers[-1]
-        await srv.ready.wait()
-        body = self.cluster.get(self.kex, "ns", name)
         if body is None:
             self.mark("admit-skipped", why="no such object", name=name)
             return
-        body = copy.deepcopy(body)
+        srv = self.webhook_servers[-1]
+        await srv.ready.wait()
         self._admit_n += 1
         request = {"apiVersion": "admission.k8s.io/v1", "kind": "AdmissionReview", "request": {
             "uid": f"review-{self._admit_n}", "operation": operation, "dryRun": False,
@@ -79,6 +84,10 @@ class Sim14(scenario.Sim):
             "object": None if operation == "DELETE" else body,
             "oldObject": None if operation == "CREATE" else body}}
         op = self.ops.get("op")
+        # the object's memory right before and right after the request (the operator's own `memories`, as bound)
+        memories = getattr(srv.fn, "keywords", {}).get("memories")
+        snap = (lambda: None if memories is None else self.obs._mem_snapshot(memories, body))
+        mem_before = snap()
         try:
             response = await srv.fn(request)
             allowed = bool(response.get("response", {}).get("allowed"))
@@ -86,7 +95,8 @@ class Sim14(scenario.Sim):
         except Exception as e:  # noqa: BLE001
             allowed, err = None, repr(e)
         self.mark("admit", uid=body["metadata"].get("uid"), name=name, operation=operation,
-                  inc=getattr(op, "n", None), allowed=allowed, error=err)
+                  inc=getattr(op, "n", None), allowed=allowed, error=err,
+                  mem_seen=memories is not None, mem_before=mem_before, mem_after=snap())
 
 
 def run_scenario(sc: dict, wall_limit: float = 60.0) -> dict:
